@@ -86,8 +86,8 @@ PROPS = {
     },
     "C07": {
         "pkg": "handlers", "level": "exploration",
-        "quick": {"stages": [st("^TestC07Sequential", 600), st("^TestC07Concurrent", 600), st("^TestC07Backpressure", 150)]},
-        "thorough": {"stages": [st("^TestC07Sequential", 10000, shards=6, timeout=3000), st("^TestC07Concurrent", 12000, shards=5, timeout=3000), st("^TestC07Concurrent", 2500, shards=2, race=True, timeout=3000), st("^TestC07Backpressure", 1500, shards=3, timeout=3000)]},
+        "quick": {"stages": [st("^TestC07Sequential", 600), st("^TestC07Concurrent", 600), st("^TestC07Backpressure", 150), st("^TestC07Churn", 12)]},
+        "thorough": {"stages": [st("^TestC07Sequential", 10000, shards=6, timeout=3000), st("^TestC07Concurrent", 12000, shards=5, timeout=3000), st("^TestC07Concurrent", 2500, shards=2, race=True, timeout=3000), st("^TestC07Backpressure", 1500, shards=3, timeout=3000), st("^TestC07Churn", 150, shards=2, timeout=3000), st("^TestC07Churn", 40, shards=1, race=True, timeout=3000)]},
     },
     "C15": {
         "pkg": "core", "level": "exploration",
